@@ -243,9 +243,30 @@ class Gen:
         k = r.choice(["invite_key", "invite_recreate", "invite_ban", "ranks_ladder", "halfop_mode", "quota_invisible",
                       "voice_rename", "wallops_rename", "flood_targets", "limit_invite", "case_twins", "kick_ranks",
                       "secret_whois", "oper_cycle", "moderated_prefix", "ban_case", "rejoin_list", "topic_lock",
-                      "rename_masks"])
+                      "rename_masks", "kick_repeat", "pre_rename"])
         L = self.line
-        if k == "rename_masks":
+        if k == "kick_repeat":
+            # a target named more than once in one KICK, adjacent or not, with kickable / refused ones in between
+            L(a, "JOIN " + ch); L(b, "JOIN " + ch)
+            nc = self.conns[c3]["nick"] if c3 else "ghost"
+            if c3: L(c3, "JOIN " + ch)
+            if r.random() < 0.4: L(a, "MODE %s +%s %s" % (ch, r.choice(["o", "h", "v", "a"]), nb))
+            pat = r.choice([[nb, nc, nb], [nb, nb], [nb, nc, nb, nc], [nb, "ghost", nb], [nc, nb, na, nb], [nb, nc, nc, nb]])
+            L(a, "KICK %s %s%s" % (ch, ",".join(pat), r.choice(["", " :out"])))
+            L(a, "NAMES " + ch); L(b, "JOIN " + ch)
+        elif k == "pre_rename":
+            # a nick listed in a preconfigured channel's rank lists renames while a member, leaves, and the
+            # configured nick joins again (the configuration is not rewritten by a rename)
+            if not self.pre_chans:
+                return
+            pch = self.pre_chans[0]
+            live = {x.get("nick") for x in self.conns.values() if x["live"]}
+            nn = r.choice([x for x in NICKS if x not in live] or ["zz9"])
+            L(a, "JOIN " + pch); L(b, "JOIN " + pch); L(a, "NICK " + nn); L(a, "NAMES " + pch)
+            L(a, "PART " + pch); L(a, "JOIN " + pch); L(a, "NICK " + na); L(a, "PART " + pch); L(a, "JOIN " + pch)
+            L(b, "NAMES " + pch); L(b, "PART " + pch); L(b, "NICK " + nn); L(b, "JOIN " + pch)
+            self.conns[b]["nick"] = nn
+        elif k == "rename_masks":
             # masks are matched against the CURRENT nick!user@host of a renamed user
             live = {x.get("nick") for x in self.conns.values() if x["live"]}
             nn = r.choice([x for x in NICKS if x not in live] or ["zz9"])
@@ -445,11 +466,15 @@ class Gen:
                 us[0] = me["nick"]
             if r.random() < 0.1 and n > 1:
                 us[1] = us[0]
+            if r.random() < 0.15 and n > 2:
+                us[2] = us[0]
             kch = self.cur_chan or self.pick_chan()
             if self.cur_chan and r.random() < 0.7:
                 mem = [self.conns[x]["nick"] for x in self.chan_members.get(kch, []) if self.conns[x].get("nick")]
                 if mem:
                     us = [r.choice(mem) for _ in range(n)]
+                    if n > 2 and r.random() < 0.3:
+                        us[2] = us[0]
             s = "KICK %s %s" % (kch, ",".join(us))
             if r.random() < 0.5:
                 s += " :" + r.choice(TEXTS)
